@@ -99,6 +99,8 @@ ExpandingKeeps == ~Rotating => \A k \in Keys : ins[k] > 0 => Check(subs, k)     
 PresentAfterAdd == [][ last'.o[1] = "add" => Check(subs', last'.o[2]) ]_vars          \* C10
 DupInsertsNothing == [][ (last'.o[1] = "add" /\ last'.o[3] = 0 /\ last'.was) =>       \* C09
                            (subs' = subs /\ total' = total + 1) ]_vars
+NoEarlyGrowth == [][ (last'.o[1] = "add" /\ Len(subs') > Len(subs)) => Newest(subs).n >= Est ]_vars   \* C09: an add grows only a full newest filter
+                                                                                     \* (with or without explicit pushes in the history)
 PopRefused == [][ (last'.o[1] = "pop" /\ Len(subs) = 1) => (last'.err /\ subs' = subs) ]_vars   \* C10
 
 -----------------------------------------------------------------------------
